@@ -496,6 +496,10 @@ func (m *Message) Answer(resultCode uint32) *Message {
 		m.Header.EndToEndID,
 		m.Dictionary(),
 	)
+	// NewMessage picks random identifiers when given zero, but an answer
+	// always carries the identifiers of its request.
+	nm.Header.HopByHopID = m.Header.HopByHopID
+	nm.Header.EndToEndID = m.Header.EndToEndID
 	if resultCode != 0 {
 		nm.NewAVP(avp.ResultCode, avp.Mbit, 0, datatype.Unsigned32(resultCode))
 	}
